@@ -319,8 +319,11 @@ func (t *Header) Decode(d *Decoder) error {
 		return err
 	}
 
-	epochMarkPointerFlag, err := d.ReadPointerFlag()
-	epochMarkPointerIsNil := epochMarkPointerFlag == 0
+	epochMarkIsPresent, err := d.ReadBool()
+	if err != nil {
+		return err
+	}
+	epochMarkPointerIsNil := !epochMarkIsPresent
 	if epochMarkPointerIsNil {
 		cLog(Yellow, "EpochMark is nil")
 	} else {
@@ -334,8 +337,11 @@ func (t *Header) Decode(d *Decoder) error {
 		}
 	}
 
-	ticketsMarkPointerFlag, err := d.ReadPointerFlag()
-	ticketsMarkPointerIsNil := ticketsMarkPointerFlag == 0
+	ticketsMarkIsPresent, err := d.ReadBool()
+	if err != nil {
+		return err
+	}
+	ticketsMarkPointerIsNil := !ticketsMarkIsPresent
 	if ticketsMarkPointerIsNil {
 		cLog(Yellow, "TicketsMark is nil")
 	} else {
@@ -2067,12 +2073,12 @@ func (a *AvailabilityAssignments) Decode(d *Decoder) error {
 	cLog(Cyan, "Decoding AvailabilityAssignments")
 
 	for i := 0; i < CoresCount; i++ {
-		pointerFlag, err := d.ReadPointerFlag()
+		isPresent, err := d.ReadBool()
 		if err != nil {
 			return err
 		}
 
-		pointerIsNil := pointerFlag == 0
+		pointerIsNil := !isPresent
 		if pointerIsNil {
 			cLog(Yellow, "AvailabilityAssignmentsItem is nil")
 			item := (*AvailabilityAssignment)(nil)
@@ -2114,11 +2120,11 @@ func (m *Mmr) Decode(d *Decoder) error {
 	peaks := make([]MmrPeak, length)
 	for i := uint64(0); i < length; i++ {
 		// check pointer flag
-		pointerFlag, err := d.ReadPointerFlag()
+		isPresent, err := d.ReadBool()
 		if err != nil {
 			return err
 		}
-		pointerIsNil := pointerFlag == 0
+		pointerIsNil := !isPresent
 		if pointerIsNil {
 			cLog(Yellow, "MmrPeak is nil")
 		}
@@ -3210,11 +3216,11 @@ func (b *BoundaryNode) Decode(d *Decoder) error {
 	if err := binary.Read(d.buf, binary.LittleEndian, &b.Hash); err != nil {
 		return err
 	}
-	parentFlag, err := d.ReadPointerFlag()
+	hasParent, err := d.ReadBool()
 	if err != nil {
 		return err
 	}
-	if parentFlag == 0 {
+	if !hasParent {
 		b.Parent = nil
 	} else {
 		b.Parent = &StateKey{}
